@@ -48,18 +48,39 @@ def make_case(rng, cid):
         keys[-1] = keys[0]          # the same key listed with two signatures
         mode = 'duplicate-key' if mode == 'distinct' else mode
     pairs = list(zip(sigs, keys))
+    if npairs >= 2 and rng.random() < 0.3:
+        # pairs that recombine the signature of one listed pair with the key of another (a sub-grid of sigs x keys), in any order
+        a, b = rng.sample(range(npairs), 2)
+        extra = [(sigs[a], keys[b])] + ([(sigs[b], keys[a])] if rng.random() < 0.4 else [])
+        extra = [x for x in extra if x not in pairs]
+        if extra:
+            if rng.random() < 0.6:
+                pairs = pairs + extra                  # listed after the pairs they recombine
+            else:
+                for x in extra:
+                    pairs.insert(rng.randrange(len(pairs) + 1), x)
+            mode = 'cross-pairs'
+    npairs = len(pairs)
     other_key = rnd_blob(rng, True) if sv != TAPSCRIPT else rb(rng, 32)
     other_sig = rnd_blob(rng)
     # choose what the script checks
-    use = rng.choice(['listed', 'listed', 'listed', 'wrong-sig-for-listed-key', 'listed-sig-for-other-key', 'unlisted', 'unlisted', 'mixed'])
+    use = rng.choice(['listed', 'listed', 'listed', 'wrong-sig-for-listed-key', 'listed-sig-for-other-key', 'unlisted', 'unlisted', 'mixed', 'recombined-unlisted'])
     pat = rng.choice(['checksig', 'checksigverify', 'multisig', 'multisig'] if sv != TAPSCRIPT else ['checksig', 'checksigverify', 'checksigadd', 'checksigadd'])
     i = rng.randrange(npairs)
+    if mode == 'cross-pairs' and use == 'listed' and rng.random() < 0.6:
+        i = max(k for k in range(npairs) if sum(1 for q in pairs if q[0] == pairs[k][0]) > 1 and sum(1 for q in pairs if q[1] == pairs[k][1]) > 1)   # a recombining pair
+    # a listed signature with ANOTHER listed key, the combination itself not listed: must not be accepted
+    recomb = [(sa, kb) for sa, _ in pairs for _, kb in pairs if (sa, kb) not in pairs]
+    if use == 'recombined-unlisted' and not recomb:
+        use = 'unlisted'
 
     def pick(u):
         if u == 'listed':
             return pairs[i]
         if u == 'wrong-sig-for-listed-key':
             return (other_sig, pairs[i][1])
+        if u == 'recombined-unlisted':
+            return recomb[i % len(recomb)]
         if u == 'listed-sig-for-other-key':
             return (pairs[i][0], other_key)
         return (other_sig, other_key)
